@@ -405,3 +405,143 @@ Theorem src_predict_viability_avg_is_model orc pm scr h :
   (forall t, In t (h_thetas h) -> pm KViab t (pydata_of scr) = theta_predict orc KViab t scr) ->
   src_predict_viability_avg pm (pydata_of scr) h = predict_avg orc KViab h scr.
 Proof. intros H. rewrite <- (avg_src_is_model orc pm scr h KViab H). reflexivity. Qed.
+
+(* ---------------------------------------------------------------- the methods of SparseDrugComboInteractionMCMCSample *)
+
+Lemma in_valid_rows2 t rows :
+  forallb (in_valid_row2 t) rows
+  = forallb (py_valid (length (iW t))) (col_s rows)
+    && forallb (py_valid (length (iV2 t))) (col_t0 rows) && forallb (py_valid (length (iV2 t))) (col_t1 rows).
+Proof.
+  unfold col_s, col_t0, col_t1. rewrite !forallb_map, <- !forallb_andb. apply forallb_ext'.
+  intros [[s a] b]. reflexivity.
+Qed.
+
+Lemma zip3_cols rows : zip3 (col_s rows) (col_t0 rows) (col_t1 rows) = rows.
+Proof.
+  unfold col_s, col_t0, col_t1. induction rows as [|[[s a] b] rows IH]; cbn [map zip3 fst snd]; [reflexivity | now rewrite IH].
+Qed.
+
+Lemma in_mean_src_is_model t rows :
+  (dor r2 <- np_take (iW t) (col_s rows);
+   dor r4 <- src_copy_zero vec zrow (iV2 t) (col_t0 rows);
+   dor r6 <- src_copy_zero vec zrow (iV2 t) (col_t1 rows);
+   Ok (sum_last (mmul (mmul r2 r4) r6)))
+  = if negb (forallb (in_valid_row2 t) rows) then Err ERR_INDEX else Ok (in_mean2 t rows).
+Proof.
+  rewrite in_valid_rows2, !src_copy_zero_rows, !(np_take_spec ([] : list Qc)).
+  repeat match goal with
+  | |- context [forallb (py_valid ?n) ?l] => destruct (forallb (py_valid n) l); cbn [res_bind andb negb]; [|reflexivity]
+  end. reflexivity.
+Qed.
+
+Theorem src_in_predict_conditional_mean_is_model orc t scr : scr_okb scr = true ->
+  src_in_predict_conditional_mean t (pydata_of scr) = theta_predict orc KMean (TI t) scr.
+Proof.
+  intros Hok. unfold src_in_predict_conditional_mean. rewrite src_data_arity_is_model. cbn [res_bind theta_predict].
+  destruct scr as [rows|rows|a n]; cbn [scr_arity in_predict].
+  - reflexivity.
+  - change (negb (Z.of_nat 2 =? 2)%Z) with false. cbn iota. cbn [pydata_of pd_sample_ids pd_treatment_ids].
+    rewrite np_col_tids2_0, np_col_tids2_1. cbn [res_bind]. apply in_mean_src_is_model.
+  - destruct (scr_okb_arity a n Hok) as [_ H2]. now rewrite H2.
+Qed.
+
+Definition single_of (L : list (Z * Z * Qc)) (r : Z * Z * Z) : Qc :=
+  let '(s, a, b) := r in lookup0 L s a * lookup0 L s b.
+
+Lemma lookups_spec t rows :
+  res_map_all (fun '(c, d1, d2) =>
+      dor r1 <- lookup_key (ilookup t) c d1; dor r2 <- lookup_key (ilookup t) c d2; Ok (qmul r1 r2)) rows
+  = if forallb (in_haskey_row2 t) rows then Ok (map (single_of (ilookup t)) rows) else Err ERR_KEY.
+Proof.
+  induction rows as [|[[s a] b] rows IH]; cbn [res_map_all forallb map]; [reflexivity|].
+  rewrite IH.
+  change (in_haskey_row2 t (s, a, b))
+    with (match lookup (ilookup t) s a, lookup (ilookup t) s b with Some _, Some _ => true | _, _ => false end).
+  change (single_of (ilookup t) (s, a, b)) with (lookup0 (ilookup t) s a * lookup0 (ilookup t) s b).
+  unfold lookup_key, lookup0.
+  destruct (lookup (ilookup t) s a); [|reflexivity]. cbn [res_bind].
+  destruct (lookup (ilookup t) s b); [|reflexivity]. cbn [res_bind andb].
+  destruct (forallb (in_haskey_row2 t) rows); reflexivity.
+Qed.
+
+Lemma map_map2 {A B C D} (g : C -> D) (f : A -> B -> C) a b : map g (map2 f a b) = map2 (fun x y => g (f x y)) a b.
+Proof. unfold map2. rewrite map_map. reflexivity. Qed.
+
+Lemma map2_map_r {A B C Y} (f : A -> B -> C) (g : Y -> B) a : forall l,
+  map2 f a (map g l) = map2 (fun x y => f x (g y)) a l.
+Proof.
+  induction a as [|x a IH]; intros [|y l]; try reflexivity.
+  cbn [map]. rewrite !map2_cons, IH. reflexivity.
+Qed.
+
+Lemma in_viab_src_is_model orc t rows :
+  vclip VIAB_LO VIAB_HI (vexp orc (vadd (in_mean2 t rows) (vlog orc (vclip VIAB_LO VIAB_HI (map (single_of (ilookup t)) rows)))))
+  = in_viab2 orc t rows.
+Proof.
+  unfold in_viab2, vclip, vexp, vlog, vadd. rewrite !map_map, !map_map2, map2_map_r, map2_map_r.
+  unfold map2. apply map_ext. intros [i [[s a] b]]. reflexivity.
+Qed.
+
+Theorem src_in_predict_viability_is_model orc t scr : scr_okb scr = true ->
+  src_in_predict_viability orc t (pydata_of scr) = theta_predict orc KViab (TI t) scr.
+Proof.
+  intros Hok. unfold src_in_predict_viability.
+  rewrite (src_in_predict_conditional_mean_is_model orc t scr Hok), src_data_arity_is_model. cbn [res_bind theta_predict].
+  destruct scr as [rows|rows|a n]; cbn [scr_arity in_predict].
+  - reflexivity.
+  - change (negb (Z.of_nat 2 =? 2)%Z) with false. cbn iota. cbn [pydata_of pd_sample_ids pd_treatment_ids].
+    destruct (negb (forallb (in_valid_row2 t) rows)); cbn [res_bind]; [reflexivity|].
+    rewrite np_col_tids2_0, np_col_tids2_1. cbn [res_bind]. rewrite zip3_cols, lookups_spec.
+    destruct (forallb (in_haskey_row2 t) rows); cbn [res_bind]; [|reflexivity].
+    now rewrite in_viab_src_is_model.
+  - destruct (scr_okb_arity a n Hok) as [_ H2]. now rewrite H2.
+Qed.
+
+Theorem src_in_predict_conditional_variance_is_model orc t scr :
+  src_in_predict_conditional_variance t (pydata_of scr) = theta_predict orc KVar (TI t) scr.
+Proof.
+  unfold src_in_predict_conditional_variance, py_recip. cbn [theta_predict]. unfold variance. cbn [theta_prec].
+  destruct (qeqb (iprec t) 0); [reflexivity|]. cbn [res_bind]. rewrite src_data_size_is_model. cbn [res_bind].
+  unfold np_repeat. now rewrite Nat2Z.id.
+Qed.
+
+(* ---------------------------------------------------------------- the Theta interface as the translated methods implement it *)
+
+Definition py_theta_predict (orc : oracle) (k : kind) (t : theta) (d : pydata) : result vec :=
+  match t, k with
+  | TS p, KViab => src_sp_predict_viability orc p d
+  | TS p, KMean => src_sp_predict_conditional_mean orc p d
+  | TS p, KVar => src_sp_predict_conditional_variance p d
+  | TI p, KViab => src_in_predict_viability orc p d
+  | TI p, KMean => src_in_predict_conditional_mean p d
+  | TI p, KVar => src_in_predict_conditional_variance p d
+  end.
+
+Theorem py_theta_predict_is_model orc k t scr : scr_okb scr = true ->
+  py_theta_predict orc k t (pydata_of scr) = theta_predict orc k t scr.
+Proof.
+  intros Hok. destruct t as [p|p], k; cbn [py_theta_predict].
+  - now apply src_sp_predict_conditional_mean_is_model.
+  - now apply src_sp_predict_viability_is_model.
+  - apply src_sp_predict_conditional_variance_is_model.
+  - now apply src_in_predict_conditional_mean_is_model.
+  - now apply src_in_predict_viability_is_model.
+  - apply src_in_predict_conditional_variance_is_model.
+Qed.
+
+(* models/main.py over the translated methods *)
+Theorem src_main_is_model orc scr h : scr_okb scr = true ->
+  src_predict_viability_all (py_theta_predict orc) (pydata_of scr) h = predict_all orc KViab h scr /\
+  src_predict_mean_all (py_theta_predict orc) (pydata_of scr) h = predict_all orc KMean h scr /\
+  src_predict_variance_all (py_theta_predict orc) (pydata_of scr) h = predict_all orc KVar h scr /\
+  src_predict_mean_avg (py_theta_predict orc) (pydata_of scr) h = predict_avg orc KMean h scr /\
+  src_predict_viability_avg (py_theta_predict orc) (pydata_of scr) h = predict_avg orc KViab h scr.
+Proof.
+  intros Hok. repeat split.
+  - apply src_predict_viability_all_is_model. intros t _. now apply py_theta_predict_is_model.
+  - apply src_predict_mean_all_is_model. intros t _. now apply py_theta_predict_is_model.
+  - apply src_predict_variance_all_is_model. intros t _. now apply py_theta_predict_is_model.
+  - apply src_predict_mean_avg_is_model. intros t _. now apply py_theta_predict_is_model.
+  - apply src_predict_viability_avg_is_model. intros t _. now apply py_theta_predict_is_model.
+Qed.
